@@ -258,6 +258,23 @@ class Hinted:
         return z3.ForAll(bound, g) if bound else g
 
 
+class Pure:
+    """a lemma of a hint chain that is proved from the listed hypotheses ONLY (plus the spec-function axioms), not
+    from the path condition: keeps unfolding steps of spec sums away from the quantified facts of the state"""
+
+    def __init__(self, goal, hyps=(), ground=False):
+        self.goal, self.hyps, self.ground = goal, list(hyps), ground
+
+
+class Congr:
+    """Sigma-congruence step of a hint chain: from  forall k in [lo,hi): f(k) == g(k)  (an obligation, proved from the
+    current hypotheses) conclude  Sum(lo,hi,f) == Sum(lo,hi,g).  The rule itself is the induction proved once for
+    arbitrary f, g as lemma `sum_congruence` (contracts/kernels.py)."""
+
+    def __init__(self, pointwise, concl):
+        self.pointwise, self.concl = pointwise, concl
+
+
 class Scoped:
     """a goal proved from a slice of the hypotheses: tagged hypotheses (precondition clauses `pre.<name>`, loop
     invariant clauses `inv<k>.<name>`, callee postconditions `call.<callee>.<name>`, earlier clauses of the same
@@ -703,14 +720,46 @@ class Ctx:
         if isinstance(o, Scoped):
             raise EngineError('scope(...) goes outside ForallH(...)')
         if isinstance(o, Hinted):
-            return Hinted(self.Implies(rng, o.goal), [self.Implies(rng, l) for l in o.lemmas], o.defs, [i] + o.skolems,
-                          o.final_uses)
+            return Hinted(self.Implies(rng, o.goal),
+                          [Pure(self.Implies(rng, l.goal), l.hyps, l.ground) if isinstance(l, Pure) else
+                           (Congr(self.Implies(rng, l.pointwise), self.Implies(rng, l.concl)) if isinstance(l, Congr) else
+                            self.Implies(rng, l)) for l in o.lemmas], o.defs, [i] + o.skolems, o.final_uses)
         return Hinted(self.Implies(rng, o), [], (), [i])
 
     def scope(self, goal, *keep):
         if self.mode != 'sym':
             return goal          # bounded instances keep every hypothesis so that models are valid inputs
         return Scoped(goal, keep)
+
+    def pure(self, goal, *hyps):
+        return Pure(goal, hyps) if self.mode == 'sym' else goal
+
+    def sum_step(self, lo, hi, f):
+        """ground instance of the defining (peel-last) axiom of the spec sum:  hi > lo  ==>
+        Sum(lo, hi, f) == Sum(lo, hi-1, f) + f(hi-1).  Valid by definition of Sum; used as a hypothesis of ground
+        lemmas (Ctx.pure_ground) so that an unfolding step does not involve the quantified axioms at all."""
+        if self.mode != 'sym':
+            return True
+        app = self.Sum(lo, hi, f)
+        if not (is_sym(app) and z3.is_app(app)):
+            return True
+        sf = None
+        for s in self.sums.values():
+            if s.f.eq(app.decl()):
+                sf = s
+        if sf is None:
+            return True
+        ps = list(app.children())[2:]
+        lo_t, hi_t = app.arg(0), app.arg(1)
+        return z3.Implies(hi_t > lo_t, app == sf.f(lo_t, hi_t - 1, *ps) + sf.body(hi_t - 1, *ps))
+
+    def congr(self, lo, hi, f, g):
+        if self.mode != 'sym':
+            return True
+        return Congr(self.Forall(lo, hi, lambda k: to_real(f(k)) == to_real(g(k))), self.Sum(lo, hi, f) == self.Sum(lo, hi, g))
+
+    def pure_ground(self, goal, *hyps):
+        return Pure(goal, hyps, ground=True) if self.mode == 'sym' else goal
 
     def hint(self, goal, *lemmas, defs=(), final_uses=None):
         if self.mode == 'conc':
